@@ -27,6 +27,12 @@ def main():
     except BaseException as e:  # noqa: BLE001
         traceback.print_exc()
         res = {"verdict": "ERROR", "detail": "%s: %s" % (type(e).__name__, str(e)[:500])}
+    try:
+        from engine import xcheck
+        if xcheck.EVERY and isinstance(res, dict):
+            res.setdefault("extra", {})["cross_check"] = dict(xcheck.STATS, every=xcheck.EVERY, solvers=["cvc5 1.4.0 (python)", "/usr/bin/z3 4.8.12"])
+    except Exception:  # noqa: BLE001
+        pass
     print("@@RESULT@@" + json.dumps(res, default=str))
 
 
